@@ -326,7 +326,14 @@ func runStorm(c *stormCase, rec *evid.Recorder) (*stormResult, *evid.Fail) {
 	}
 	// end of schedule: establish the premise "every backend attempt is answered or has its
 	// connection dropped": release what is held, drop connections that were told to stay silent
-	for round := 0; round < 50; round++ {
+	// (time-bounded, not round-bounded: the fake backend logs an attempt as "hold" a moment before
+	// the held reply becomes releasable, so a fixed number of quick rounds could all miss it)
+	stallReset()
+	drainDeadline := time.Now().Add(posWait)
+	for round := 0; time.Now().Before(drainDeadline); round++ {
+		if round > 0 {
+			time.Sleep(300 * time.Microsecond)
+		}
 		e.Cluster.ReleaseAll()
 		progressed := false
 		for _, s := range res.Sent {
